@@ -123,7 +123,11 @@ func main() {
 		"integer reasoning treats uint64 as mathematical integers (no wrap-around)",
 	}, rule.Assume...)}
 	runProperty(*repo, rule, *tier, res)
-	rc := res.Finish(verifDir())
+	outDir := verifDir()
+	if d := os.Getenv("VERIF_OUT"); d != "" {
+		outDir = d // development harnesses redirect evidence/reports away from /verif
+	}
+	rc := res.Finish(outDir)
 	pprof.StopCPUProfile()
 	os.Exit(rc)
 }
